@@ -422,6 +422,10 @@ def compare_walk(mlines, ilines, outcome):
         return "DIVERGE", {"line": d[0], "model": d[1], "impl": d[2], "outcome": outcome, "before": what}
     if what in ("Stale", "Uninit", "Ext"):
         return "unmodelled", what
+    if what.startswith("OOBR") and outcome == "ok":
+        # a load just outside a malloc(0) / into the slack ASan leaves is not always reported; what the C then does with the
+        # bytes it loaded is not modelled
+        return "oob-read-not-reported", what
     exp = CRASH_EXPECTED.get(what, ())
     if any(outcome.startswith(e) for e in exp):
         return "predicted-crash", what
@@ -516,6 +520,7 @@ def run(ck):
                             "impl": d[2] if d else None, "outcome": outcome})
     ck.cov["samples"].append({"level": "decoder", "cases": hexcases[:4], "model": ml[:4]})
 
+    stats["t_decoder"] = round(time.time() - ck.t0, 1)
     # ---- 2. corpus of valid files, made by the harness itself
     cdir = os.path.join(work, "corpus")
     os.makedirs(cdir, exist_ok=True)
@@ -561,6 +566,7 @@ def run(ck):
             oracle("theorem witness wit_" + w, "adf", "wit_" + w, data, res2, same, wdir, 9000 + k, {"theorem_witness": w})
     ck.extra["witness_replay"] = wit_report
 
+    stats["t_witness"] = round(time.time() - ck.t0, 1)
     # ---- 4. ADF: truncations, model-guided field corruptions, structural attacks
     quota = None if big else 330          # mutants per file in quick (a seeded sample; every class kept represented)
     tasks = []                            # (file, idx, desc, cls, data, model script line)
@@ -613,6 +619,7 @@ def run(ck):
             ps = ",".join("%d:%s" % (o, v[:len(data) - o].hex()) for o, v in patches)
             tasks.append((name, len(tasks), desc, cls, apply_patches(data, patches), "mutn %d %s" % (FUEL, ps), "mcheckn " + ps))
 
+    stats["t_generated"] = round(time.time() - ck.t0, 1)
     # model side: one process per base file, in the pool
     def model_job(name):
         mine = [t for t in tasks if t[0] == name]
@@ -674,6 +681,7 @@ def run(ck):
             # the walk itself was clean on the implementation but differs from the model
             corr_broken.append({"level": "walk", "file": name, "mutant": desc, "class": cls, "detail": detail})
 
+    stats["t_adf_compared"] = round(time.time() - ck.t0, 1)
     # ---- 5. HDF5: truncations and corruptions around marker values (oracle only)
     hd = os.path.join(work, "hdf"); os.makedirs(hd, exist_ok=True)
     for n in hdf_names:           # linked files must sit next to the mutants
